@@ -40,6 +40,14 @@ BAD = [
     ("for-colon-d2", ["@if f:", "  @if g:", "    @for it in ys", "    @endfor", "  @endif", "@endif"], 2),
     ("if-colon-in-for", ["@for it in ys:", "  A", "  @if g", "  @endif", "@endfor"], 2),
     ("py-colon-in-for", ["@for it in ys:", "  A", "  @py", "  @endpy", "@endfor"], 2),
+    # directive lines that are silently dropped inside blocks today: should they ever be diagnosed, then at their own line
+    ("input-in-for", ["@for it in ys:", "  A", "  @input", "  B", "@endfor", "after"], 2), ("render-in-for", ["@for it in ys:", "  A", "  B", "  @render", "@endfor", "after"], 3),
+    ("renderhint-in-for", ["@for it in ys:", "  @render:react", "  A", "@endfor", "after", "more"], 1), ("input-noname-in-for", ["@for it in ys:", "  A", '  @input label="x"', "@endfor", "z"], 2),
+    ("input-in-if", ["@if f:", "  A", "  @input", "@endif"], 2), ("render-in-if", ["@if f:", "  A", "  @render", "  B", "@endif"], 2),
+    ("hook-in-for", ["@for it in ys:", "  A", "  @hook turn_end", "@endfor", "z"], 2), ("hook-in-if", ["@if f:", "  @unhook a b c", "@endif"], 1),
+    ("input-in-nested-for", ["@for it in ys:", "  @for w in ys:", "    A", "    @input", "  @endfor", "@endfor", "z"], 3),
+    # malformed @include lines (diagnosed by the include resolver, in the coordinates of the file they stand in)
+    ("include-nopath", ["@include"], 0), ("include-two", ["@include a.bard b.bard"], 0), ("include-blank", ["@include   "], 0),
     ("elif-colon-d3", ["@if f:", "  @if g:", "    @if f:", "      A", "    @elif g", "      B", "    @endif", "  @endif", "@endif"], 4),
 ]
 # constructs whose error stands at the opening line and which swallow the rest of the file
